@@ -122,6 +122,20 @@ def hex_specs(n):
         spec(f'idiv{opt}', f'hex.idiv {{n}}, {{n}}, c, d, a, b, {{x[div0]}}, {opt}', ['ft', 'div0'], idiv(opt), AB,
              'signed division; sign(r) by rem_opt; a == q*b + r')
     spec('idiv_badopt', 'hex.idiv {n}, {n}, c, d, a, b, {x[div0]}, 3', ['ft', 'div0'], lambda v: ({}, 'div0'), AB, 'any other rem_opt jumps to div0')
+
+    def aliased(model, q, r):
+        def f(v):
+            ch, ex = model(v)
+            out = {}
+            if 'c' in ch:
+                out[q] = ch['c']
+            if 'd' in ch:
+                out[r] = ch['d']
+            return out, ex
+        return f
+    # (hex.idiv negates a and b in place around the unsigned division, so its outputs cannot alias the inputs: not enumerated)
+    for q, r in (('a', 'd'), ('c', 'a'), ('b', 'd'), ('c', 'b'), ('a', 'b'), ('b', 'a')):
+        spec(f'div_q{q}_r{r}', f'hex.div {{n}}, {{n}}, {q}, {r}, a, b, {{x[div0]}}', ['ft', 'div0'], aliased(div, q, r), AB, 'in place: q / r is an input vector')
     return S
 
 
@@ -228,6 +242,22 @@ def bit_specs(n):
     spec('div_loop', 'bit.div_loop {n}, a, b, c, d', [ft], div, AB, '')
     spec('idiv', 'bit.idiv {n}, a, b, c, d', [ft], idiv, AB, 'signed; sign(r)==sign(a)')
     spec('idiv_loop', 'bit.idiv_loop {n}, a, b, c, d', [ft], idiv, AB, '')
+
+    # in-place forms: an output vector is one of the inputs (x /= d, x %= d); kept where the unchanged library computes them
+    def aliased(model, q, r):
+        def f(v):
+            ch, ex = model(v)
+            out = {}
+            if 'c' in ch:
+                out[q] = ch['c']
+            if 'd' in ch:
+                out[r] = ch['d']
+            return out, ex
+        return f
+    # (bit.idiv / idiv_loop negate a and b in place around the unsigned division, so their outputs cannot alias the inputs: not enumerated)
+    for mac, model in (('div', div), ('div_loop', div)):
+        for q, r in (('a', 'd'), ('c', 'a'), ('b', 'd'), ('c', 'b'), ('a', 'b'), ('b', 'a')):
+            spec(f'{mac}_q{q}_r{r}', f'bit.{mac} {{n}}, a, b, {q}, {r}', [ft], aliased(model, q, r), AB, 'in place: the quotient / remainder vector is an input vector')
     return S
 
 
